@@ -1,5 +1,6 @@
 from typing import Any, Dict
 
+from vtlengine import _verif
 from vtlengine.API import create_ast
 from vtlengine.AST import Comment, Start
 from vtlengine.AST.Grammar._cpp_parser import parser_lock, vtl_cpp_parser
@@ -47,6 +48,7 @@ def create_ast_with_comments(text: str) -> Start:
         AST: The generated AST with comments.
     """
     text_with_newline = text + "\n"
+    _verif.yield_point("parsec.enter")
     with parser_lock:
         # Parse with C++ parser (this also collects comments)
         vtl_cpp_parser.parse(text_with_newline)
@@ -66,4 +68,5 @@ def create_ast_with_comments(text: str) -> Start:
         ast.children.extend(comments)
         ast.children.sort(key=lambda x: (x.line_start, x.column_start))
 
+    _verif.yield_point("parsec.exit")
     return ast
